@@ -182,6 +182,20 @@ class MB:
                 m.graph.value_info.append(v)
             for nme, (dt, shape) in self.vi_override.items():
                 m.graph.value_info.append(oh.make_tensor_value_info(nme, ONNX_DT[dt], shape))
+        # A host (of a space that sets mb.anon_unknown) whose inputs carry unnamed dynamic dims writes every unknown dim anonymously: the names unk__N
+        # that onnx shape inference invents for outputs / intermediates are dropped too (two anonymous dims are NOT
+        # known to be equal; a seeded defect compared them equal).
+        def _anon(d):
+            return not d.HasField("dim_value") and not d.HasField("dim_param")
+        if getattr(self, "anon_unknown", False) and any(
+                _anon(d) for v in m.graph.input if v.type.HasField("tensor_type") and v.type.tensor_type.HasField("shape")
+                for d in v.type.tensor_type.shape.dim):
+            for v in list(m.graph.output) + list(m.graph.value_info):
+                tt = v.type.tensor_type
+                if v.type.HasField("tensor_type") and tt.HasField("shape"):
+                    for d in tt.shape.dim:
+                        if d.dim_param.startswith("unk__"):
+                            d.ClearField("dim_param")
         return m
 
     def feeds(self, n=N_FEEDS):
